@@ -362,17 +362,27 @@ def closing_predicates(ctx, repo, rule):
                 continue        # legacy closure, decided by C16
             n_pred += 1
             tok = f.args.args[-1].arg
-            for r in [r for r in iter_own(f) if isinstance(r, ast.Return) and
-                      isinstance(r.value, ast.Constant) and r.value.value is True]:
-                facts = [(unparse(t), pol) for t, pol in atomic_facts(r)]
+            from .. import symex
+            helpers = dict((qq.rsplit('.', 1)[-1], ff) for qq, ff in mod.functions.items())
+            try:
+                rcs = symex.return_cases(f)
+            except symex.TooManyPaths as e:
+                ctx.unknown(rule, mod, f, str(e), construct='%s: return True' % q)
+                continue
+            for cs in rcs:
+                v = cs.sub
+                if isinstance(v, ast.Constant) and not v.value:
+                    continue
+                also = [] if isinstance(v, ast.Constant) else [v]
+                facts = symex.facts_of(cs.conds, cs.env, methods=helpers, also=also)
                 kind = [t for t, pol in facts if pol and t.startswith(tok + '.tok ')]
                 eq = [t for t, pol in facts if pol and t.startswith(tok + '.arg == ')]
-                ctx.decide(rule, bool(kind) and bool(eq), mod, r,
+                ctx.decide(rule, bool(kind) and bool(eq), mod, cs.node,
                            'closes on %s and %s' % (kind, eq),
                            '%s accepts a token as the closing delimiter on the facts %s only: it '
                            'must test the token kind AND equality with the expected closer, '
                            'otherwise a different closing delimiter ends the construct'
-                           % (q, [t for t, pol in facts if pol]),
+                           % (q, sorted(t for t, pol in facts if pol)),
                            construct='%s: return True' % q)
     ctx.analysed['closing_predicates'] = n_pred
     mcp = dm.methods('LatexDelimitedExpressionParserInfo').get('make_content_parser')
@@ -394,9 +404,12 @@ def _rest(ctx, repo):
     if gm is None:
         raise AnalysisError('anchor vanished: LatexDelimitedGroupParserInfo.make_child_parsing_state')
     tokp = gm.args.args[-1].arg
-    for r in [r for r in iter_own(gm) if isinstance(r, ast.Return)]:
-        v = unparse(r.value)
-        facts = [(unparse(t), pol) for t, pol in atomic_facts(r)]
+    from .. import symex
+    helpers = dict((qq.rsplit('.', 1)[-1], ff) for qq, ff in dm.functions.items())
+    for cs in symex.return_cases(gm):
+        r = cs.node
+        v = unparse(cs.sub)
+        facts = symex.facts_of(cs.conds, cs.env, methods=helpers)
         if v == 'self.contents_parsing_state':
             ok = ("%s.tok == 'brace_open'" % tokp, True) in facts and \
                 ('%s.arg == self.parsed_delimiters[0]' % tokp, True) in facts
